@@ -220,3 +220,92 @@ func VH_C19_document_stroke_Q() {
 	vAssert("C19.docstroke.miterlimit", isMiter && vhC19Near(mj.Limit, wantLim))
 	vAssert("C19.docstroke.sibling_has_no_stroke", !b.style.HasStroke())
 }
+
+// C19-H7: colour values (svg.go parseColor, colors.go Hex).  CSS Color 4 hex notations #rgb, #rgba,
+// #rrggbb, #rrggbbaa with symbolic colour digits (alpha digits from a set, so that the
+// premultiplication stays linear), upper and lower case: the parsed colour is the premultiplied
+// form of (r, g, b, a) where a three/four digit form doubles every digit; named colours and rgb()
+// with numbers and percentages on concrete examples.
+func vhC19HexDigit(k int) (byte, uint8) {
+	d := vNondetByte()
+	switch k {
+	case 0:
+		vAssume(d <= 9)
+		return '0' + d, d
+	case 1:
+		vAssume(d <= 5)
+		return 'a' + d, 10 + d
+	}
+	vAssume(d <= 5)
+	return 'A' + d, 10 + d
+}
+
+func VH_C19_colors_hex_Q() {
+	vhC19Stubs()
+	form := vChoose(0, 3) // 0 #rgb, 1 #rgba, 2 #rrggbb, 3 #rrggbbaa
+	kind := vChoose(0, 2)
+	n := []int{3, 3, 6, 6}[form]
+	s := []byte{'#'}
+	vals := make([]uint8, n)
+	for i := 0; i < n; i++ {
+		var c byte
+		c, vals[i] = vhC19HexDigit(kind)
+		s = append(s, c)
+	}
+	alphaDigits := []string{"0", "8", "f", "3"}
+	ad := alphaDigits[vChoose(0, 3)]
+	av := map[string]uint8{"0": 0, "8": 8, "f": 15, "3": 3}[ad]
+	var r, g, b, a float64
+	switch form {
+	case 0, 1:
+		r, g, b = float64(vals[0])*17, float64(vals[1])*17, float64(vals[2])*17
+	default:
+		r, g, b = float64(vals[0])*16+float64(vals[1]), float64(vals[2])*16+float64(vals[3]), float64(vals[4])*16+float64(vals[5])
+	}
+	a = 255
+	if form == 1 {
+		s = append(s, ad...)
+		a = float64(av) * 17
+	} else if form == 3 {
+		s = append(s, ad...)
+		s = append(s, "7"...)
+		a = float64(av)*16 + 7
+	}
+	svg := vhC19Parser()
+	col := svg.parseColor(string(s))
+	vAssert("C19.colors.hex.no_error", svg.err == nil)
+	near := func(got uint8, want float64) bool { return float64(got)-want <= 1 && want-float64(got) <= 1 }
+	vAssert("C19.colors.hex.alpha", float64(col.A) == a)
+	vAssert("C19.colors.hex.premultiplied_components", near(col.R, r*a/255) && near(col.G, g*a/255) && near(col.B, b*a/255))
+	vAssert("C19.colors.hex.valid_premultiplied", col.R <= col.A && col.G <= col.A && col.B <= col.A)
+}
+
+// C19-H8: rgb()/rgba() colour functions (CSS Color: components are integers 0-255 or
+// percentages, the alpha of rgba() is a number in [0,1] or a percentage).  This is also the form
+// the library's own SVG back-end writes for translucent paints (CSSColor: "rgba(255,0,0,.5)"),
+// which ParseSVG must read back.  Integer components concrete, alpha and percentages symbolic
+// multiples of 1/4 (placeholders, see vhC19Num).
+func VH_C19_colors_func_Q() {
+	vhC19Stubs()
+	svg := vhC19Parser()
+	near := func(got uint8, want float64) bool { return float64(got)-want <= 1 && want-float64(got) <= 1 }
+	switch vChoose(0, 2) {
+	case 0: // rgba with a numeric alpha
+		al := vNondetDyadic(4, 2)
+		vAssume(0 <= al && al <= 1)
+		col := svg.parseColor("rgba(255,100,0," + vhC19Num(al) + ")")
+		vAssert("C19.colors.rgba.no_error", svg.err == nil)
+		vAssert("C19.colors.rgba.alpha", near(col.A, al*255))
+		vAssert("C19.colors.rgba.premultiplied", near(col.R, 255*al) && near(col.G, 100*al) && near(col.B, 0))
+	case 1: // rgb with percentages
+		pr := vNondetDyadic(10, 2)
+		vAssume(0 <= pr && pr <= 100)
+		col := svg.parseColor("rgb(" + vhC19Num(pr) + "%," + vhC19Num(0) + "%," + vhC19Num(100) + "%)")
+		vAssert("C19.colors.rgbpct.no_error", svg.err == nil)
+		vAssert("C19.colors.rgbpct.components", near(col.R, pr*2.55) && col.G == 0 && col.B == 255 && col.A == 255)
+	default: // rgb with integers, named colours
+		col := svg.parseColor("rgb(12, 200,7)")
+		vAssert("C19.colors.rgb.integers", svg.err == nil && col == color.RGBA{12, 200, 7, 255})
+		vAssert("C19.colors.named", svg.parseColor("Red") == color.RGBA{255, 0, 0, 255} && svg.parseColor("cornflowerblue") == color.RGBA{100, 149, 237, 255} && svg.err == nil)
+	}
+}
